@@ -29,9 +29,10 @@ Theorem C12_caching_on_equals_off : forall (K V : Type) (keqb : K -> K -> bool) 
   (forall a b, keqb a b = true -> a = b) ->
   forall ks, cruns K V keqb compute true [] ks = cruns K V keqb compute false [] ks.
 Proof. exact caching_on_equals_off. Qed.
-(* the caches of the code are written only under their guards (read off the source) *)
+(* the caches of the code are written only under their guards, and the font cache is keyed by the font dictionary's
+   object number -- the hypothesis "the key determines the value" of C12_cache_transparent (read off the source) *)
 Theorem C12_cache_guards : font_cache_guarded = true /\ object_cache_guarded = true /\ use_cmap_copies = true /\
-                           type0_subspec_copied = true.
+                           type0_subspec_copied = true /\ font_cache_key_is_objid = true.
 Proof. repeat split; reflexivity. Qed.
 
 (* interleaving the page iterators of two documents changes nothing for either *)
